@@ -80,7 +80,15 @@ RunWeights ==
           /\ lastAllZero' = e.dataAllZero
     /\ l' = l + 1
 
-Next == RefCase \/ InitCase \/ RefAny \/ RunWeights
+\* the weights of iteration k + 1 (resp. those the checkpoint proposes) are the refinement of the result of iteration k - also when that
+\* result's estimate is exactly zero because its values cancel (sumZero = 1: such a sample was found; moved = 1: the refinement moves them)
+NextWeights ==
+    /\ l <= TraceLen
+    /\ LET e == TheTrace[l] IN
+       /\ e.e = "NextWeights" /\ e.usedId = e.refId
+       /\ ("sumZero" \in DOMAIN e) => (e.sumZero = 1 /\ e.moved = 1)
+    /\ l' = l + 1 /\ UNCHANGED <<run, disabled, lastId, lastAllZero>>
+Next == RefCase \/ InitCase \/ RefAny \/ RunWeights \/ NextWeights
 Spec == Init /\ [][Next]_vars
 TraceAccepted == TraceAcceptedBy(TraceLen)
 =============================================================================
